@@ -155,7 +155,7 @@ func (store *Store) UpsertAccounts(ctx context.Context, accounts ...ledger.Accou
 						UPDATE ?1.accounts a
 						SET
 							metadata = a.metadata || d.metadata,
-							first_usage = LEAST(d.first_usage, a.first_usage),
+							first_usage = LEAST(COALESCE(d.first_usage, ?1.transaction_date()), a.first_usage),
 							updated_at = COALESCE(d.updated_at, ?1.transaction_date())
 						FROM data_batch d
 						WHERE a.address = d.address and ledger = ?2 and (d.first_usage < a.first_usage or not a.metadata @> d.metadata)
